@@ -78,6 +78,21 @@ func fmtSprintfSem(c *Ctx, tags map[string]bool) *fmtSemResult {
 				return iv{}, callDefault
 			}
 			recvIsValue := sig.Recv() != nil && isValue(sig.Recv().Type())
+			if recvIsValue && len(callee.Blocks) > 0 {
+				// a method of value that is itself built from the primitive conversions (the per-argument
+				// conversion moved out of sprintf into a method): entered, not taken as one conversion
+				composite := false
+				allInstrs(callee, func(in ssa.Instruction) {
+					if ci, ok := in.(ssa.CallInstruction); ok {
+						if g := ci.Common().StaticCallee(); g != nil && g != callee && g.Signature.Recv() != nil && isValue(g.Signature.Recv().Type()) {
+							composite = true
+						}
+					}
+				})
+				if composite {
+					return iv{}, callDefault
+				}
+			}
 			switch {
 			case recvIsValue && res.Len() == 2:
 				// isTrueStr: (number, is a true string)
